@@ -2,7 +2,12 @@ use super::{ContextPtr, SlotChain};
 use crate::logging;
 use crate::{Error, Result};
 use std::sync::Arc;
+#[cfg(not(flea1lt_sentinel_rust_verif))]
 use std::sync::{RwLock, Weak};
+#[cfg(flea1lt_sentinel_rust_verif)]
+use std::sync::{Weak};
+#[cfg(flea1lt_sentinel_rust_verif)]
+use crate::verif::sync::{RwLock};
 use std::vec::Vec;
 
 type ExitHandler = Box<dyn Send + Sync + Fn(&SentinelEntry, ContextPtr) -> Result<()>>;
